@@ -145,6 +145,34 @@ theorem cleanup_iff_started_runner_single (d : AppDef)
   simp only [exitsOf_append, enteredOf_append, hsetup_ev.1, hsetup_ev.2.1, K.1, K.2,
     List.nil_append, List.append_nil]
 
+/-- **Teardowns never overlap — every table, both entries, every failing set.**  Reading the
+whole event log, the cleanup code of a context begins only when no other cleanup code is
+running, and nothing else is logged until it is over (returned or raised): "reverse order
+of start-up" holds for whole teardowns (begin *and* end), not only for their first
+statement.  Together with the order theorems this is the strict nesting
+`… begin(k+1) end(k+1) begin(k) end(k) …`. -/
+theorem teardowns_never_overlap (tbl : List AppDef) (entry : Entry) :
+    nestedFrom none (lifeLog tbl entry) = true := by
+  have hrunner : nestedFrom none (lifeLog tbl .runner) = true := by
+    rw [lifeLog_runner]
+    exact nested_append _ _ (step_nested tbl {} .setup) (step_nested tbl _ .cleanup)
+  cases entry with
+  | runner => exact hrunner
+  | runApp =>
+    rw [lifeLog_runApp]
+    split
+    · exact hrunner
+    · exact step_nested tbl {} .setup
+
+/-- one `CleanupContext`: the teardown events are exactly `begin i, end i` for the recorded
+contexts in reverse order, one after the other -/
+theorem context_teardowns_sequential (a : Nat) (cs : List Ctx) (x : List Nat) :
+    (groupCleanup a cs x).1 = x.reverse.flatMap (fun i => [Ev.exit a i, Ev.exitEnd a i]) := by
+  simp only [groupCleanup]
+  induction x.reverse with
+  | nil => rfl
+  | cons i l ih => simp [exitAll, ih]
+
 /-- Whenever start-up succeeds, `_run_app` and `AppRunner` produce the same log (any table). -/
 theorem run_app_eq_runner_when_startup_succeeds (tbl : List AppDef)
     (h : (Runner.step tbl {} .setup).err = none) : lifeLog tbl .runApp = lifeLog tbl .runner := by
